@@ -215,6 +215,51 @@ Qed.
 Lemma canon_sane K v : version_query_sane v = true -> version_query_sane (canon K v) = true.
 Proof. unfold canon. destruct (str_mem v K); [auto | reflexivity]. Qed.
 
+(* ---- every (version, revision) combination resolves --------------------------------- *)
+
+Lemma every_rev_check_ok : every_rev_check = true.
+Proof. vm_compute. reflexivity. Qed.
+
+Lemma resolves_check_ok : resolves_check = true.
+Proof. vm_compute. reflexivity. Qed.
+
+Lemma get_max_payload_canon t ver rev dr :
+  get_max_payload t ver rev dr
+  = get_max_payload t (canon (skeys (t_maxpl t)) ver) (canon (rev_keys t) rev) dr.
+Proof.
+  unfold get_max_payload.
+  now rewrite (select_size_table_canon t _ _ ver rev (incl_refl _) (incl_refl _)).
+Qed.
+
+Lemma every_revision_total c : In c band_configs -> forall reg, region_of (c_name c) = Some reg ->
+  forall ver rev dr, must_have_size reg (t_drs (c_tab c)) dr = true ->
+  exists s, get_max_payload (c_tab c) ver rev dr = Ok s.
+Proof.
+  intros Hc reg Hreg ver rev dr Hm.
+  pose proof every_rev_check_ok as H. unfold every_rev_check in H.
+  rewrite forallb_forall in H. specialize (H c Hc). rewrite Hreg in H. cbv zeta in H.
+  rewrite forallb_forall in H. specialize (H (canon (skeys (t_maxpl (c_tab c))) ver) (canon_in _ _)).
+  rewrite forallb_forall in H. specialize (H (canon (rev_keys (c_tab c)) rev) (canon_in _ _)).
+  assert (Hin : exists d, In (dr, d) (t_drs (c_tab c))).
+  { unfold must_have_size in Hm. destruct (zfind dr (t_drs (c_tab c))) eqn:F; [|discriminate].
+    eauto using zfind_Some_In. }
+  destruct Hin as [d Hin]. rewrite forallb_forall in H. specialize (H _ Hin). cbn [fst] in H.
+  unfold every_rev_cell_check, every_revision_ok in H. rewrite Hm in H.
+  rewrite (get_max_payload_canon (c_tab c) ver rev dr).
+  destruct (get_max_payload (c_tab c) _ _ dr) as [s| | |]; try discriminate. eauto.
+Qed.
+
+Lemma every_revision_resolves c : In c band_configs -> forall ver rev,
+  exists st, select_size_table (c_tab c) ver rev = Some st.
+Proof.
+  intros Hc ver rev. pose proof resolves_check_ok as H. unfold resolves_check in H.
+  rewrite forallb_forall in H. specialize (H c Hc). cbv zeta in H.
+  rewrite forallb_forall in H. specialize (H (canon (skeys (t_maxpl (c_tab c))) ver) (canon_in _ _)).
+  rewrite forallb_forall in H. specialize (H (canon (rev_keys (c_tab c)) rev) (canon_in _ _)).
+  rewrite (select_size_table_canon (c_tab c) _ _ ver rev (incl_refl _) (incl_refl _)).
+  destruct (select_size_table (c_tab c) _ _) as [st|]; [eauto | discriminate].
+Qed.
+
 Lemma repeater_le_non_repeater cr cn : In cr band_configs -> In cn band_configs ->
   c_name cr = c_name cn -> c_dwell cr = c_dwell cn -> c_rep cr = true -> c_rep cn = false ->
   forall ver rev dr m n, version_query_sane ver = true ->
